@@ -64,7 +64,15 @@ func vRecord(seeds []string) *vTabs {
 				aa := a
 				t.toa[s] = &aa
 			}
-			for _, r := range []string{n, l, u, a, strings.TrimSuffix(s, ".")} {
+			// ASCII letters lower-cased: what dns.ForLookup hands to the IDNA library
+			alb := []byte(s)
+			for i, c := range alb {
+				if 'A' <= c && c <= 'Z' {
+					alb[i] = c + ('a' - 'A')
+				}
+			}
+			al := string(alb)
+			for _, r := range []string{n, l, u, a, al, strings.TrimSuffix(s, ".")} {
 				if !seen[r] {
 					next[r] = true
 				}
